@@ -132,10 +132,14 @@ func c11Case(i int, raw []byte) Result {
 		var pages []layout.PageFragments
 		for p, pg := range c.Doc {
 			var frs []text.TextFragment
-			for _, f := range pg {
+			for fi, f := range pg {
 				x, y := hfPos(f)
 				t := hfText(f, p+1)
-				frs = append(frs, text.TextFragment{Text: t, X: float64(x), Y: float64(y), Width: float64(5 * len(t)), Height: 10, FontSize: 10, FontName: "/F1"})
+				dx := 0.0
+				if fi > 0 && pg[fi-1] == f {
+					dx = 0.6 // the same line printed again a fraction of a point to the right (emboldening)
+				}
+				frs = append(frs, text.TextFragment{Text: t, X: float64(x) + dx, Y: float64(y), Width: float64(5 * len(t)), Height: 10, FontSize: 10, FontName: "/F1"})
 			}
 			pages = append(pages, layout.PageFragments{PageIndex: p, PageHeight: 792, PageWidth: 612, Fragments: frs})
 		}
@@ -164,7 +168,16 @@ func c11Case(i int, raw []byte) Result {
 			events = append(events, Event{"event": "Filter", "p": p + 1, "removed": removed})
 		}
 	}
-	// ---- path 2: public API on a rendered PDF
+	// ---- path 2: public API on a rendered PDF (not for pages with an overprinted line: text extraction merges the
+	// two copies, which is C09's business; the detector path above sees both)
+	for _, pg := range c.Doc {
+		for fi := range pg {
+			if fi > 0 && pg[fi-1] == pg[fi] {
+				r.Events = events
+				return r
+			}
+		}
+	}
 	var placed [][]pdfdoc.Placed
 	for p, pg := range c.Doc {
 		var pl []pdfdoc.Placed
